@@ -145,7 +145,7 @@ Example class_file_rel2_nonvacuous :
   match P None file_base_text, S None file_base_text with
   | POk b, BDone sb =>
       in_class_file_rel2 sb i1 = true /\ in_class_file_rel2 sb i2 = true
-      /\ known_c01 (Some b) i1 = 1 /\ known_c01 (Some b) i2 = 1
+      /\ known_c01_v2 (Some b) i1 = 1 /\ known_c01_v2 (Some b) i2 = 1
       /\ match P (Some b) i1, S (Some sb) i1 with
          | POk u, BDone su => q_href u = [102;105;108;101;58;47;47;104;50;46;120;47;98;63;113]
                               /\ api_of_model true u = Some (spec_api_list spec_host_serializer su)
